@@ -256,10 +256,23 @@ func convertSlice(ports [][]uint16) []byte {
 	return b
 }
 
+// parseSDFFilter decodes an SDF Filter IE. The decoder trusts the length
+// fields inside the IE and panics on inconsistent ones; a malformed filter
+// from the peer must not take the event loop down, so that is turned into
+// an error here.
+func parseSDFFilter(i *ie.IE) (v *ie.SDFFilterFields, err error) {
+	defer func() {
+		if p := recover(); p != nil {
+			v, err = nil, errors.Errorf("malformed SDF Filter IE: %v", p)
+		}
+	}()
+	return i.SDFFilter()
+}
+
 func (g *Gtp5g) newSdfFilter(i *ie.IE, srcIf uint8) (nl.AttrList, error) {
 	var attrs nl.AttrList
 
-	v, err := i.SDFFilter()
+	v, err := parseSDFFilter(i)
 	if err != nil {
 		return nil, err
 	}
